@@ -1,6 +1,7 @@
 package rules
 
 import (
+	"fmt"
 	"go/token"
 	"go/types"
 	"sort"
@@ -29,22 +30,22 @@ import (
 // room) and not something larger (Stats would exceed the configured bound);
 // MaxElementSize defaults to MaxSize and an element limit above MaxSize is
 // MaxSize (no such element fits either way); the other members are kept.
-func c09ConfigExact(c *Ctx) {
+func c09ConfigExact(c *Ctx) (decided bool) {
 	const rule = "C09.config-exact"
 	c.L.Floor(rule, 1)
 	nc := c.fn("cache", "newCache")
 	if nc == nil {
-		return
+		return false
 	}
 	what := "effective MaxSize / MaxCount / MaxElementSize == the configured ones (0 = unlimited) for every Config"
 	if len(nc.Params) != 1 {
 		c.undecided(rule, nc, what, nil, "newCache does not take exactly one Config")
-		return
+		return false
 	}
 	st, ok := nc.Params[0].Type().Underlying().(*types.Struct)
 	if !ok {
 		c.undecided(rule, nc, what, nil, "the parameter is not a struct")
-		return
+		return false
 	}
 	idx := map[string]int{}
 	for i := 0; i < st.NumFields(); i++ {
@@ -55,7 +56,7 @@ func c09ConfigExact(c *Ctx) {
 		i, ok := idx[n]
 		if !ok || !isUnsignedWord(st.Field(i).Type()) {
 			c.undecided(rule, nc, what, nil, "Config."+n+" is not an unsigned integer member")
-			return
+			return false
 		}
 		lim[k] = i
 	}
@@ -91,7 +92,7 @@ func c09ConfigExact(c *Ctx) {
 				out, kept, err := evalNewCache(nc, st, lim, in)
 				if err != "" {
 					c.undecided(rule, nc, what, nil, "outside the grammar of the order-type evaluation: "+err)
-					return
+					return false
 				}
 				n++
 				wantS, wantC := ms, mc
@@ -116,6 +117,7 @@ func c09ConfigExact(c *Ctx) {
 		}
 	}
 	c.check(bad == "", rule, nc, what, nil, sprintf("%d configurations (every order type of the three limits and the function's constants) evaluated; %s", n, bad))
+	return true // decided, whatever the verdict: the relational fall-back has nothing to add
 }
 
 func isUnsignedWord(t types.Type) bool {
@@ -274,6 +276,16 @@ func evalNewCache(fn *ssa.Function, conf *types.Struct, lim [3]int, in [3]uint64
 					break
 				}
 				env[v] = ncVal{kind: 'p', obj: b.obj, path: b.path + sprintf(".%d", v.Field)}
+			case *ssa.IndexAddr:
+				b := val(v.X)
+				k, isK := core.ConstInt(v.Index)
+				if b.kind != 'p' || !isK {
+					env[v] = ncVal{kind: 'o'}
+					break
+				}
+				env[v] = ncVal{kind: 'p', obj: b.obj, path: b.path + sprintf("[%d]", k)}
+			case *ssa.Slice:
+				env[v] = ncVal{kind: 'o'}
 			case *ssa.Field:
 				b := val(v.X)
 				if b.kind != 's' {
@@ -382,6 +394,34 @@ func evalNewCache(fn *ssa.Function, conf *types.Struct, lim [3]int, in [3]uint64
 					env[v] = acc
 					break
 				}
+				if strings.HasPrefix(name, "cmp.Or") && len(v.Call.Args) == 1 {
+					// cmp.Or(a, b, ...): the first operand that is not zero, else zero
+					if sl, isSl := v.Call.Args[0].(*ssa.Slice); isSl {
+						if al, isAl := sl.X.(*ssa.Alloc); isAl {
+							vals := map[int64]ncVal{}
+							okAll := true
+							for k, cv := range cells[al] {
+								var i int64
+								if _, err := fmtSscan(k, &i); err != nil || cv.kind != 'i' {
+									okAll = false
+								}
+								vals[i] = cv
+							}
+							if okAll && len(vals) > 0 {
+								res := ncVal{kind: 'i'}
+								for i := int64(0); i < int64(len(vals)); i++ {
+									if cv, ok := vals[i]; ok && cv.i != 0 {
+										res = cv
+										break
+									}
+								}
+								env[v] = res
+								break
+							}
+						}
+					}
+					fail("cmp.Or with operands the evaluation does not follow")
+				}
 				for _, a := range v.Call.Args {
 					x := val(a)
 					if x.kind == 'p' && (x.path == "" || cellsBelowHoldLimits(cells[x.obj], x.path)) {
@@ -466,6 +506,9 @@ func evalNewCache(fn *ssa.Function, conf *types.Struct, lim [3]int, in [3]uint64
 }
 
 type ncErr string
+
+// fmtSscan reads the element index out of a cell path of the form "[k]".
+func fmtSscan(path string, i *int64) (int, error) { return fmt.Sscanf(path, "[%d]", i) }
 
 func cellsBelowHoldLimits(m map[string]ncVal, path string) bool {
 	for k, v := range m {
